@@ -145,6 +145,40 @@ def run_mcs(jobs, par=4):
         return list(ex.map(lambda j: run_mc(j[0], j[1], workers=w), jobs))
 
 
+def write_seeds(n=64, nbytes=32):
+    """seeded random byte strings for the plan modules (read there with ndJsonDeserialize)"""
+    import random
+    r = random.Random(seed())
+    path = os.path.join(WORK, "plan_seeds_%d.ndjson" % seed())
+    with open(path, "w") as f:
+        for _ in range(n):
+            f.write(json.dumps({"b": [r.randrange(256) for _ in range(nbytes)]}) + "\n")
+    return path
+
+
+def gen_plan(module, cfg, tag, extra_env=None, timeout=1800):
+    """run a *Plan.tla module: TLC writes the plan (ndjson) to $PLAN_OUT; returns (path, n_lines)"""
+    os.makedirs(WORK, exist_ok=True)
+    outp = os.path.join(WORK, "plan_%s.ndjson" % tag)
+    if os.path.exists(outp):
+        os.remove(outp)
+    env = dict(os.environ, PLAN_OUT=outp, PLAN_SEEDS=write_seeds())
+    if extra_env:
+        env.update(extra_env)
+    md = os.path.join(WORK, "pl_" + tag)
+    try:
+        r = subprocess.run(tlc_cmd(module, cfg, md, 1, "4g"), cwd=SPEC, capture_output=True, text=True, env=env,
+                           timeout=timeout)
+    except subprocess.TimeoutExpired:
+        raise ToolError("TLC timeout generating plan " + module)
+    finally:
+        shutil.rmtree(md, ignore_errors=True)
+    if "PLAN-WRITTEN" not in r.stdout or not os.path.exists(outp):
+        raise ToolError("plan generation failed (%s):\n%s" % (module, r.stdout[-3000:]))
+    n = sum(1 for _ in open(outp))
+    return outp, n
+
+
 # ----------------------------------------------------------------------------- trace validation
 KIND2PROP = {
     # Session
@@ -155,7 +189,12 @@ KIND2PROP = {
     "enc": "C03", "encf": "C03",
     "eq": "C08", "isid": "C08", "hash": "C08",
     "rt": "C01", "rt2": "C01",
-    "sqrt": "C09", "fsqrt": "C09", "legendre": "C09",
+    "sqrt": "C09", "fsqrt": "C09", "flegendre": "C09",
+    # FieldAPI
+    "fbin": "C10", "fun": "C10", "fpow": "C10", "ffold": "C10", "fsel": "C10", "feq": "C10", "ffrom": "C10",
+    "fser": "C11", "fparse": "C11", "freduce": "C11", "fserflags": "C11", "fdeserflags": "C11", "ffromstr": "C11",
+    "fdisplay": "C11", "fcmp": "C11", "fhash": "C11",
+    "konst": "C17",
 }
 
 
